@@ -59,6 +59,9 @@ def build_graph(case):
                 o.payload = ["x", i, ("t", i)]
             if case.get("big") and i % 4 == 0:
                 o.blob = "b" * 70000
+            if case.get("closures") and i % 3 == 1:
+                # a callback stored on the vertex that closes over ANOTHER graph object (dill pickles it by value)
+                o.cb = (lambda t: (lambda: t.uid))(w.objs[(i * 7 + 1) % len(w.objs)])
     H.install_main_classes()
     H.MainV.ROOT = next((o for o in w.objs if type(o) is H.MainV), None) if case.get("main_root") else None
     root = w.objs[case["u"]]
@@ -70,6 +73,11 @@ def build_graph(case):
         ls = [l for v in root.vertices for l in v.links]
         if ls:
             root = ls[len(ls) // 2]
+    elif case.get("root") == "closure":
+        # a new vertex whose only connection to the graph is the closure of a callback stored on it
+        holder = Vertex()
+        holder.cb = (lambda t: (lambda: t))(root)
+        root = holder
     if case.get("warm"):
         Vertex.NEIGHBOR_CACHING = True
         for o in w.objs:
@@ -138,7 +146,8 @@ class RoundTrip(Leg):
                 ops = [([op[0], 4] + op[2:]) if op[0] == "NV" and len(op) == 4 and rng.random() < 0.5 else op for op in ops]
             if rng.random() < 0.3:      # vertices with value semantics (__eq__ / __hash__ on the uid)
                 ops = [([op[0], 3] + op[2:]) if op[0] == "NV" and len(op) == 4 and rng.random() < 0.7 else op for op in ops]
-            yield {"ops": ops, "u": u, "root": rng.choice(["universe", "universe", "vertex", "link"]), "main_root": main_root,
+            yield {"ops": ops, "u": u, "root": rng.choice(["universe", "universe", "vertex", "link", "closure"]), "main_root": main_root,
+                   "closures": rng.random() < 0.3,
                    "proto": rng.choice([0, 1, 2, 3, 4, 5, None]), "warm": rng.choice([False, True, "filtered", "filtered"]),
                    "cache_dump": rng.random() < 0.5, "cache_load": rng.random() < 0.6, "big": rng.random() < 0.2,
                    "fresh": i % 4 == 0}
@@ -301,6 +310,8 @@ class Depth(Leg):
     def generate(self, rng, n):
         for length in [50, 1000, 6000, 500, 20000, 10000][:n]:
             yield {"length": length}
+        # a callback stored on one vertex that closes over the far end of the chain
+        yield {"length": 3000, "closure": True}
         # a script-level vertex class (pickled by value) that keeps a class attribute pointing into the chain
         yield {"length": 600, "main_root": True}
 
@@ -319,6 +330,13 @@ class Item(Vertex):
 VCLS = Item if %r else Vertex
 vs = [VCLS(attributes={"i": i}) for i in range(n)]
 Item.ROOT = vs[0] if VCLS is Item else None
+CLOSURE = %r
+if CLOSURE:
+    # the ONLY way from the pickled root into the chain is the closure of a callback stored on the root
+    root = Vertex()
+    root.cb = (lambda t: (lambda: t))(vs[0])
+else:
+    root = None
 for a, b in zip(vs, vs[1:]):
     explicit.link_directed(a, b)
 u = Universe(vertices=vs)
@@ -336,14 +354,16 @@ def prof(frame, event, arg):
 sys.setrecursionlimit(400)
 sys.setprofile(prof)
 try:
-    data = nrpickler.dumps(u)
+    data = nrpickler.dumps(root if CLOSURE else u)
 finally:
     sys.setprofile(None)
 sys.setrecursionlimit(100000)
 c = pickle.loads(data)
+if CLOSURE:
+    c = c.cb().universes[0]
 ok = len(c.vertices) == n and [v.i for v in c.vertices] == list(range(n)) and all(len(v.links) in (1, 2) for v in c.vertices)
 print(depth["max"], int(ok))
-''' % (str(C.REPO), case["length"], bool(case.get("main_root")))
+''' % (str(C.REPO), case["length"], bool(case.get("main_root")), bool(case.get("closure")))
         p = subprocess.run([sys.executable, "-c", script], stdout=subprocess.PIPE, stderr=subprocess.PIPE, text=True, timeout=600)
         if p.returncode != 0:
             return {"error": (p.stderr.strip().splitlines() or ["?"])[-1]}
@@ -497,7 +517,7 @@ class Scheduler(Leg):
             T, table, top = trace_recursive(root, case["proto"])
             stream, mlen = trace_nonrecursive(root, case["proto"], T)
             import types
-            atoms = [i for i, o in enumerate(T.keep) if isinstance(o, (type, types.FunctionType))]
+            atoms = [i for i, o in enumerate(T.keep) if isinstance(o, type)]      # (the model's answer does not depend on the atomic set)
             return {"table": [[list(k), body] for k, body in table], "top": top, "stream": stream, "mlen": mlen, "atoms": atoms}
         except Exception as e:  # noqa: BLE001
             return {"error": f"{type(e).__name__}: {e}"}
